@@ -9,9 +9,12 @@
      Try p q r   p; if err != nil { q; return } ; r                   (fallback q replaces the error;
                                                                        Swallow p = Try p Skip Skip is the
                                                                        relaxed-mode "skip this object")
-     Retry p q   p; if err == nil || c.Err() != nil { return err }; q (model.ParseObjectContext: the context
-                                                                       is probed, a cancelled context stops
-                                                                       the relaxed re-parse)
+     Retry p q r p; if err == nil { r } else if cerr := c.Err(); cerr != nil { return cerr } else { q; return }
+                                                                      (the context is PROBED after a failure: a
+                                                                       cancelled context stops the fallback q;
+                                                                       model.ParseObjectContext (relaxed re-parse),
+                                                                       parseXRefStreamOrRepair (xref repair),
+                                                                       processObject (skip malformed object))
      Fail        an error caused by the input
      Skip        code that does not poll
 
@@ -28,7 +31,7 @@ Inductive prog :=
 | Skip | Poll | Fail
 | Seq (p q : prog)
 | Try (p q r : prog)
-| Retry (p q : prog).
+| Retry (p q r : prog).
 
 Inductive outcome := Done | CtxErr (e : N) | InErr.
 
@@ -50,10 +53,10 @@ Fixpoint run (poll : N -> option N) (p : prog) (s : state) : outcome * state :=
                if is_done o then run poll q s1 else (o, s1)
   | Try p q r => let (o, s1) := run poll p s in
                  if is_done o then run poll r s1 else run poll q s1
-  | Retry p q => let (o, s1) := run poll p s in
-                 if is_done o then (Done, s1)
+  | Retry p q r => let (o, s1) := run poll p s in
+                 if is_done o then run poll r s1
                  else match poll (polls s1) with
-                      | Some _ => (o, tick_late s1)
+                      | Some e => (CtxErr e, tick_late s1)     (* the CONTEXT's error (adbdecb6) *)
                       | None => run poll q (tick s1)
                       end
   end.
@@ -70,7 +73,7 @@ Fixpoint guard (p : prog) : bool :=
   | Skip => false | Poll => true | Fail => true
   | Seq p q => guard p || guard q
   | Try p q r => guard q && (guard p || guard r)
-  | Retry p q => guard p
+  | Retry p q r => guard p || guard r
   end.
 
 (* p contains no poll *)
@@ -79,7 +82,7 @@ Fixpoint nopoll (p : prog) : bool :=
   | Skip => true | Poll => false | Fail => true
   | Seq p q => nopoll p && nopoll q
   | Try p q r => nopoll p && nopoll q && nopoll r
-  | Retry p q => false
+  | Retry p q r => false
   end.
 
 (* p always returns Done *)
@@ -88,7 +91,7 @@ Fixpoint nofail (p : prog) : bool :=
   | Skip => true | Poll => false | Fail => false
   | Seq p q => nofail p && nofail q
   | Try p q r => nofail q && nofail r
-  | Retry p q => nofail p
+  | Retry p q r => nofail p && nofail r
   end.
 
 (* p never returns Done after one of its polls was late *)
@@ -97,7 +100,7 @@ Fixpoint tight (p : prog) : bool :=
   | Skip | Poll | Fail => true
   | Seq p q => tight q && (tight p || guard q)
   | Try p q r => tight r && (tight p || guard r) && tight q && (nopoll p || guard q)
-  | Retry p q => tight p && tight q
+  | Retry p q r => tight r && (tight p || guard r) && tight q
   end.
 
 (* bound on late polls of p when started cancelled (lc) / not yet cancelled (lb) *)
@@ -106,7 +109,8 @@ Fixpoint lc (p : prog) : N :=
   | Skip => 0 | Poll => 1 | Fail => 0
   | Seq p q => if guard p then lc p else lc p + lc q
   | Try p q r => if guard p then lc p + lc q else lc p + N.max (lc q) (lc r)
-  | Retry p q => if nofail p then lc p else lc p + 1
+  | Retry p q r => if guard p then lc p + 1
+                   else if nofail p then lc p + lc r else lc p + N.max 1 (lc r)
   end.
 Fixpoint lb (p : prog) : N :=
   match p with
@@ -114,7 +118,9 @@ Fixpoint lb (p : prog) : N :=
   | Seq p q => N.max (if tight p then lb p else lb p + lc q) (N.max (lb q) (lc q))
   | Try p q r => N.max (N.max (lb p + lc q) (N.max (lb q) (lc q)))
                        (N.max (if tight p then 0 else lb p + lc r) (N.max (lb r) (lc r)))
-  | Retry p q => if nofail p then lb p else N.max (lb p + 1) (N.max (lb q) (lc q))
+  | Retry p q r =>
+      let x := N.max (if tight p then 0 else lb p + lc r) (N.max (lb r) (lc r)) in
+      if nofail p then x else N.max (N.max (lb p + 1) (N.max (lb q) (lc q))) x
   end.
 Definition lbc (p : prog) : N := N.max (lb p) (lc p).
 
@@ -125,23 +131,21 @@ Definition lbc (p : prog) : N := N.max (lb p) (lc p).
    model.ParseObjectContext [ok exit polls in processDictKeys, inside the Retry],
    then (stream dicts) loadStreamDict -> ensureIndirectStreamLength -> int64Object
    [op exit polls of the nested object read].  obig: "endobj" not inside the buffer (endInd < 0). *)
-Record fobj := mkfo { ob : nat; ok_ : nat; op : nat; obig : bool }.
+Record fobj := mkfo { ob : nat; ok_ : nat; op : nat; obig : bool }.  (* obig is informative only *)
 
 Definition buffer_polls (o : fobj) : prog := Seq Poll (pollsN (ob o)).
 Definition parse_obj (o : fobj) : prog :=
-  Seq (buffer_polls o) (Retry (pollsN (ok_ o)) (pollsN (ok_ o))).
+  Seq (buffer_polls o) (Retry (pollsN (ok_ o)) (pollsN (ok_ o)) Skip).
 
 (* read.go parseAndLoad: object + resolveObject, then loadStreamDict *)
 Definition parse_and_load (o : fobj) : prog := Seq (parse_obj o) (pollsN (op o)).
 
-(* read.go processObject: relaxed mode skips a malformed object (ANY error, also the
-   context's) when endInd >= 0; object() returns endInd = 0 when buffer() fails. *)
+(* read.go processObject (adbdecb6): after a failure of parseAndLoad the context is probed first, in
+   both modes; cancelled -> the context's error.  Otherwise relaxed mode skips the malformed object
+   (endInd >= 0) and strict mode returns the error — which, the probe having seen no cancellation,
+   is an input error (Fail).  Not modelled: relaxed mode with endInd < 0 also returns the error. *)
 Definition process_object (relaxed : bool) (o : fobj) : prog :=
-  if relaxed then
-    Try (buffer_polls o) Skip
-        (if obig o then Seq (Retry (pollsN (ok_ o)) (pollsN (ok_ o))) (pollsN (op o))
-         else Swallow (Seq (Retry (pollsN (ok_ o)) (pollsN (ok_ o))) (pollsN (op o))))
-  else parse_and_load o.
+  Retry (parse_and_load o) (if relaxed then Skip else Fail) Skip.
 
 (* items met by bypassXrefSection while scanning the file line by line *)
 Inductive fitem := FObj (o : fobj) | FTrailer (keys : nat).
@@ -149,7 +153,7 @@ Inductive fitem := FObj (o : fobj) | FTrailer (keys : nat).
 Definition bypass_item (relaxed : bool) (i : fitem) : prog :=
   match i with
   | FObj o => process_object relaxed o
-  | FTrailer k => Retry (pollsN k) (pollsN k)     (* processXRefRepairLine -> processTrailer: propagates *)
+  | FTrailer k => Retry (pollsN k) (pollsN k) Skip  (* processXRefRepairLine -> processTrailer: propagates *)
   end.
 
 (* read.go bypassXrefSection: no poll of its own in the scan loop *)
@@ -160,14 +164,14 @@ Definition bypass (relaxed : bool) (file : list fitem) : prog :=
 Inductive section := STable (keys : nat) | SStream (o : fobj).
 
 (* read.go buildXRefTableStartingAt: poll at the loop head; tryXRefSection errors propagate;
-   parseXRefStreamOrRepair: ANY error of parseXRefStream (also the context's) starts
-   bypassXrefSection and the loop is left ("repaired"). strict_index_mismatch is not modelled
-   (it needs a malformed /Index). *)
+   parseXRefStreamOrRepair: an error of parseXRefStream starts bypassXrefSection and the loop is
+   left ("repaired") — unless the context is cancelled (probe c.Err(), commit 1364969e).
+   The strict-mode /Index mismatch exit is not modelled (it needs a malformed /Index). *)
 Fixpoint chain (relaxed : bool) (file : list fitem) (l : list section) : prog :=
   match l with
   | [] => Skip
-  | STable k :: rest => Seq Poll (Seq (Retry (pollsN k) (pollsN k)) (chain relaxed file rest))
-  | SStream o :: rest => Seq Poll (Try (parse_and_load o) (bypass relaxed file) (chain relaxed file rest))
+  | STable k :: rest => Seq Poll (Seq (Retry (pollsN k) (pollsN k) Skip) (chain relaxed file rest))
+  | SStream o :: rest => Seq Poll (Retry (parse_and_load o) (bypass relaxed file) (chain relaxed file rest))
   end.
 
 (* read.go decodeObjectStreams / decodeObjectStream: poll, parse the stream object, load its
@@ -226,10 +230,5 @@ Definition read (poll : N -> option N) (s : shape) : outcome * state := run poll
 Definition flip_at (k : option N) (e : N) : N -> option N :=
   fun i => match k with None => None | Some k => if k <=? i then Some e else None end.
 
-(* the defect class: a relaxed read whose xref chain contains an xref stream *)
-Definition has_stream (l : list section) : bool :=
-  existsb (fun x => match x with SStream _ => true | _ => false end) l.
-Definition repair_swallows (s : shape) : bool := s_relaxed s && has_stream (s_sections s).
-
-(* "number of enclosing stages": the late-poll bound outside the defect class *)
+(* "number of enclosing stages": the late-poll bound, for every shape *)
 Definition stage_bound : N := 6.
